@@ -323,7 +323,24 @@ pub fn oracle_c12(cfg: &BerCfg, obs: &BerObs) -> (Vec<Violation>, OracleStats) {
             let mut want = 0u64;
             let mut want_fe = 0u64;
             let mut ok = true;
-            for &(wi, seq) in &p.recvs {
+            if p.recvs.is_empty() && p.untransported > 0 {
+                // the frames do not travel to the collector over a channel (another design than
+                // the present one): which of them were counted is not observable; the counters
+                // must still be those of some whole frames of the point (a prefix per task)
+                st.probes.inc("systematic-prefix accounting without an observable transport (order-free)");
+                match crate::bersim::tier2_find(p, s, cfg.bch_max_errors, 400_000) {
+                    Some(None) => v.push(Violation::new(
+                        "systematic-prefix",
+                        format!("point {}: the collector counted {} bit errors in {} frame errors over {} frames, which no set of the frames handed to the decoders (with their injected systematic bit flips) explains: the first k bits of the word are not the worker's message", e, s.ldpc.bit_errors, s.ldpc.frame_errors, s.num_frames),
+                    )),
+                    Some(Some(_)) => {}
+                    None => st.probes.inc("tier-2 search budget exhausted (not judged)"),
+                }
+                continue;
+            }
+            // the collector counts the frames in the order it receives them; what it receives
+            // after it has stopped counting (a queue drained at shutdown) is not counted
+            for &(wi, seq) in p.recvs.iter().take(s.num_frames as usize) {
                 match p.frames.get(&(wi, seq)) {
                     Some(&(be, _, _)) => {
                         want += be;
